@@ -33,6 +33,9 @@ type TypesMap interface {
 	Prefix() string
 	TypeString(typ types.Type) string
 	FieldStrings(fields []*types.Var) ([]string, error)
+	// StructFieldStrings returns the same as FieldStrings for the fields of the struct, but includes the tags of the fields,
+	// since structs with different tags are different types.
+	StructFieldStrings(strct *types.Struct) ([]string, error)
 	IsExternal(typ ObjectGetter) bool
 	Done() bool
 }
@@ -75,10 +78,23 @@ func (tm *typesMap) TypeString(typ types.Type) string {
 }
 
 func (tm *typesMap) FieldStrings(fields []*types.Var) ([]string, error) {
+	return tm.fieldStrings(fields, make([]string, len(fields)))
+}
+
+func (tm *typesMap) StructFieldStrings(strct *types.Struct) ([]string, error) {
+	fields := GetStructFields(strct)
+	tags := make([]string, len(fields))
+	for i := range fields {
+		tags[i] = strct.Tag(i)
+	}
+	return tm.fieldStrings(fields, tags)
+}
+
+func (tm *typesMap) fieldStrings(fields []*types.Var, tags []string) ([]string, error) {
 	// Every field is placed on its own line, since gofmt leaves a struct with less than two fields on a single line.
 	src := "var a struct {\n"
-	for _, field := range fields {
-		fieldStr := tm.TypeString(types.NewStruct([]*types.Var{field}, nil))
+	for i, field := range fields {
+		fieldStr := tm.TypeString(types.NewStruct([]*types.Var{field}, []string{tags[i]}))
 		src += strings.TrimSuffix(strings.TrimPrefix(fieldStr, "struct{"), "}") + "\n"
 	}
 	src += "}"
